@@ -432,8 +432,8 @@ example :
   Under these hypotheses (the region in which the library has no finding T01…) the whole pipeline
   `sample_ceil_y/floor_y → edge_init ×2 → rasterize_edges` adds exactly `Spec.addShape`.
   `rasterizeTrapezoid_nothing`: no sample row inside.  `rasterizeTrapezoid_offsets`: offsets that do not wrap are a
-  translation.  `addTrapezoids_eq_addShapes`: lists.  (`pixman_add_traps` is stated for one `pixman_trap_t` and
-  offsets 0.) -/
+  translation.  `addTrapezoids_eq_addShapes`, `addTraps_eq_addShapes`: lists.  `addTrap_offsets`: offsets of
+  `pixman_add_traps`. -/
 
 open Pixman.Lemmas.TrapShape Pixman.Lemmas.TrapSetup Pixman.Lemmas.TrapTri in
 theorem rasterizeTrapezoid_eq_addShape (n : Nat) (hn : Depth n) (img : Img) (hwf : ImgWF n img)
@@ -517,6 +517,23 @@ theorem addTrapezoids_eq_addShapes (n : Nat) (hn : Depth n) (traps : List Trapez
       { img with rows := traps.foldl (fun rows tr =>
           if tr.valid then addShape n img.width img.height rows (shapeOf tr) else rows) img.rows } :=
   Pixman.Lemmas.TrapSetup.addTrapezoids_eq_addShapes n hn traps img hwf hh hall
+
+open Pixman.Lemmas.TrapShape Pixman.Lemmas.TrapSetup in
+/-- `pixman_add_traps (image, 0, 0, n, traps)`: every trap in the exact region (`TrapExact`) — the image is the Spec
+    counts of the traps added one after the other -/
+theorem addTraps_eq_addShapes (n : Nat) (hn : Depth n) (traps : List Trap) (img : Img) (hwf : ImgWF n img)
+    (hh : img.height ≤ 32767) (hall : ∀ tr ∈ traps, TrapExact n img.height tr) :
+    addTraps n img 0 0 traps =
+      { img with rows := traps.foldl (fun rows tr => addShape n img.width img.height rows (trapShape tr)) img.rows } :=
+  Pixman.Lemmas.TrapSetup.addTraps_eq_addShapes n hn traps img hwf hh hall
+
+open Pixman.Lemmas.TrapSetup in
+/-- fixed-point offsets that do not wrap: an iteration of `pixman_add_traps` rasterises the moved trap -/
+theorem addTrap_offsets (n : Nat) (img : Img) (tr : Trap) (xo yo : Int)
+    (hc : InI32 (tr.topL + xo) ∧ InI32 (tr.topR + xo) ∧ InI32 (tr.topY + yo) ∧ InI32 (tr.botL + xo) ∧
+          InI32 (tr.botR + xo) ∧ InI32 (tr.botY + yo)) :
+    addTrap n img xo yo tr = addTrap n img 0 0 (moveTrap tr xo yo) :=
+  Pixman.Lemmas.TrapSetup.addTrap_offsets n img tr xo yo hc
 
 /-! ## R4 — abutting shapes tile seamlessly (consequences of "each sample is in exactly one")
 
